@@ -2179,6 +2179,8 @@ ure_exec(ure_dfa_t dfa, int flags, ucs2_t *text, unsigned long textlen,
 {
   int i, j, matched, found, skip;
   unsigned long ms, me;
+  /* zvbi: the last accepting state this attempt passed through. */
+  unsigned long acc_ms = ~0, acc_me = ~0;
   ucs4_t c;
   ucs2_t *sp, *ep, *lp;
   _ure_dstate_t *stp;
@@ -2295,6 +2297,11 @@ ure_exec(ure_dfa_t dfa, int flags, ucs2_t *text, unsigned long textlen,
 
 	stp = dfa->states + stp->trans[i].next_state;
 
+	if (stp->accepting) {
+	  acc_ms = ms;
+	  acc_me = me;
+	}
+
 	/*
 	 * If the match was an EOL anchor, adjust the pointer past the
 	 * separator that caused the match.  The correct match
@@ -2326,10 +2333,20 @@ ure_exec(ure_dfa_t dfa, int flags, ucs2_t *text, unsigned long textlen,
 	 * attempt began, not after the character which ended it, or
 	 * "ab" is not found in "aab".
 	 */
-	if (ms != (unsigned long) ~0)
-	  sp = text + ms + 1;
-	stp = dfa->states;
-	ms = me = ~0;
+	if (acc_ms != (unsigned long) ~0) {
+	  /*
+	   * zvbi: a longer alternative failed, but this attempt
+	   * passed an accepting state: "(x|xab)" matches "xac".
+	   */
+	  ms = acc_ms;
+	  me = acc_me;
+	  found = 1;
+	} else {
+	  if (ms != (unsigned long) ~0)
+	    sp = text + ms + 1;
+	  stp = dfa->states;
+	  ms = me = ~0;
+	}
       } else
 	/*
 	 * The last state was accepting, so terminate the matching
@@ -2352,6 +2369,18 @@ ure_exec(ure_dfa_t dfa, int flags, ucs2_t *text, unsigned long textlen,
 	      found = 1;
 	    } else
 	      break;
+	  }
+	}
+	if (found == 0) {
+	  /* zvbi: as above when the text ends in mid-attempt. */
+	  if (acc_ms != (unsigned long) ~0) {
+	    ms = acc_ms;
+	    me = acc_me;
+	    found = 1;
+	  } else if (ms != (unsigned long) ~0 && ms + 1 < textlen) {
+	    sp = text + ms + 1;
+	    stp = dfa->states;
+	    ms = me = ~0;
 	  }
 	}
       } else {
